@@ -694,6 +694,33 @@ impl Pool {
                             format!("names {ta:?} (loc {:?}) and {tb:?} (loc {:?}): eq {} cmp {:?} hash-eq {}", ma.loc, mb.loc, na == nb, na.cmp(nb), hash_of(na) == hash_of(nb)),
                         ));
                     }
+                    // comparison / borrowing impls used when names are map keys
+                    use std::borrow::Borrow;
+                    let borrowed: &str = na.borrow();
+                    let as_ref: &str = na.as_ref();
+                    let deref: &str = na;
+                    if borrowed != ta
+                        || as_ref != ta
+                        || deref != ta
+                        || na.partial_cmp(tb) != ta.partial_cmp(tb)
+                        || na.partial_cmp(&tb) != ta.partial_cmp(tb)
+                        || (*na == tb) != (ta == tb)
+                        || na.to_string() != ta
+                        || format!("{na:?}") != format!("{ta:?}")
+                    {
+                        return Err(problem("eq_ord_hash", format!("str views of name {ta:?} compared with {tb:?}")));
+                    }
+                    let mut hm: std::collections::HashMap<Name, u8> = std::collections::HashMap::new();
+                    hm.insert(na.clone(), 1);
+                    let mut bm: std::collections::BTreeMap<Name, u8> = std::collections::BTreeMap::new();
+                    bm.insert(na.clone(), 1);
+                    if hm.get(tb).is_some() != (ta == tb)
+                        || bm.get(tb).is_some() != (ta == tb)
+                        || hm.get(nb).is_some() != (ta == tb)
+                        || hm.get(ta) != Some(&1)
+                    {
+                        return Err(problem("eq_ord_hash", format!("map lookup of {tb:?} in a map keyed by name {ta:?}")));
+                    }
                     self.count("op.compare");
                 }
             }
@@ -846,6 +873,12 @@ impl Pool {
                 let (a, b) = (a as usize, b as usize);
                 if let (Some(ma), Some(mb)) = (&self.m_nodes[a], &self.m_nodes[b]) {
                     let (na, nb) = (self.nodes[a].as_ref().unwrap(), self.nodes[b].as_ref().unwrap());
+                    // a component shares the node, it does not copy it
+                    let comp = na.to_component(apollo_compiler::schema::ComponentOrigin::Definition);
+                    if !comp.node.ptr_eq(na) || comp.value != ma.value || loc_of(comp.location()) != ma.loc {
+                        return Err(problem("node_eq_hash_ptr_eq", "to_component does not share the node".into()));
+                    }
+                    drop(comp);
                     if (na == nb) != (ma.value == mb.value)
                         || (hash_of(na) == hash_of(nb)) != (ma.value == mb.value)
                         || na.ptr_eq(nb) != (ma.alias == mb.alias)
